@@ -151,9 +151,9 @@ def _shapes(P, func_body):
         bool(re.search(r'bool\s+implements\s*\(\s*var\s+self\s*,\s*var\s+cls\s*\)\s*\{\s*return\s+Type_Implements\s*\(\s*Type_Of\s*\(\s*self\s*\)\s*,\s*cls\s*\)\s*;\s*\}', tc)) and \
         bool(re.search(r'var\s+instance\s*\(\s*var\s+self\s*,\s*var\s+cls\s*\)\s*\{\s*return\s+Type_Instance\s*\(\s*Type_Of\s*\(\s*self\s*\)\s*,\s*cls\s*\)\s*;\s*\}', tc))
     b = func_body(tc, r'static\s+var\s+Type_Method_At_Offset\s*\([^)]*\)\s*\{')
-    want = ('{varinst=Type_Instance(self,cls);#ifCELLO_METHOD_CHECK==1if(instisNULL){returnthrow(ClassError,"",self,cls);}#endif'
+    want = ('{varinst=Type_Instance(self,cls);#ifCELLO_METHOD_CHECK==1if(instisNULL){returnthrow(ClassError,"",$S(Type_Builtin_Name(self)),$S(Type_Builtin_Name(cls)));}#endif'
             '#ifCELLO_METHOD_CHECK==1varmeth=*((var*)(((char*)inst)+offset));if(methisNULL){returnthrow(ClassError,"",'
-            'self,cls,$(String,(char*)method_name));}#endifreturninst;}')
+            '$S(Type_Builtin_Name(self)),$S(Type_Builtin_Name(cls)),$(String,(char*)method_name));}#endifreturninst;}')
     sh['disp_method_check_shape_ok'] = bool(b) and _norm(b) == want
     b = func_body(tc, r'static\s+bool\s+Type_Implements_Method_At_Offset\s*\([^)]*\)\s*\{')
     want = ('{varinst=Type_Scan(self,cls);if(instisNULL){returnfalse;}varmeth=*((var*)(((char*)inst)+offset));'
@@ -161,7 +161,7 @@ def _shapes(P, func_body):
     sh['disp_implements_method_shape_ok'] = bool(b) and _norm(b) == want
     b = func_body(tc, r'\nvar\s+cast\s*\(\s*var\s+self\s*,\s*var\s+type\s*\)\s*\{')
     want = ('{structCast*c=instance(self,Cast);if(candc->cast){returnc->cast(self,type);}if(type_of(self)istype){returnself;}'
-            'else{returnthrow(ValueError,"",type_of(self),type);}}')
+            'else{returnthrow(ValueError,"",$S(c_str(type_of(self))),$S(c_str(type)));}}')
     sh['disp_cast_shape_ok'] = bool(b) and _norm(b) == want
     ok = bool(re.search(r'#define\s+Instance\s*\(\s*I\s*,\s*\.\.\.\s*\)\s+NULL\s*,\s*#I\s*,\s*&\(\(struct\s+I\)\{__VA_ARGS__\}\)', hdr))
     m = re.search(r'#define\s+CelloObject\s*\(\s*T\s*,\s*S\s*,\s*\.\.\.\s*\)((?:.*\\\n)*.*)', hdr)
